@@ -4,7 +4,7 @@ MGR_TUS = BASE + ['src/client/QXmppIqHandling.cpp', 'src/client/QXmppClientExten
                   'src/base/QXmppDiscoveryIq.cpp', 'src/base/QXmppVersionIq.cpp', 'src/base/QXmppEntityTimeIq.cpp', 'src/base/QXmppDataForm.cpp']
 MODELS = ['qt_core.c', 'qt_list.c', 'qt_dom.c', 'qt_object.c', 'c08_models.c']
 def I(name, **kw):
-    d = dict(name=name, entry='h_' + name, unwind=8, timeout_s=300, mem_gb=6, bound=''); d.update(kw); return d
+    d = dict(name=name, entry='h_' + name, unwind=8, timeout_s=300, mem_gb=6, object_bits=12, bound=''); d.update(kw); return d
 SPEC = dict(
     property='C08',
     groups=[
